@@ -1,103 +1,103 @@
-(* ScopeProofs.v - C09 as a global invariant of the evaluator model: whatever is
-   evaluated - expression, block, loop, user function, helper with a block,
-   contentFor / contentOf, partial with a layout - and however it ends (value
-   or error), the CURRENT SCOPE afterwards is the scope it started in.  Every
-   construct that enters a child scope leaves it again on every path. *)
+(* StmtProofs.v - C15, the statement an error is blamed on, as a global
+   invariant of the evaluator model: an evaluation that SUCCEEDS leaves the
+   current statement (compiler.curStmt, the line an error is reported at) as it
+   found it - whatever blocks, loops, function bodies, helper blocks and
+   partials ran on the way.  So an error raised later in the same tag is
+   reported at that tag, never at the last statement of something that
+   completed earlier (the defect repaired by the fix for C15 cannot recur in
+   any other construct).  The two functions that walk the statements of a
+   block (eval_stmts, eval_stmt) set the current statement as they go and are
+   exempt; the block that contains them restores it. *)
 From Coq Require Import Lia.
 From Plush Require Import model.Bytes model.Lexer model.Ast model.Parser model.Ctx model.Text model.Iter model.Value model.Eval.
 Local Open Scope N_scope.
 
-Definition SC {A} (c : nat) (r : res (A * state)) : Prop :=
+Definition SC {A} (c : option nat) (r : res (A * state)) : Prop :=
   match r with
-  | ROk (_, s) => scur s = c
-  | RErr _ s => scur s = c
+  | ROk (_, s) => sstmt s = c
   | _ => True
   end.
-Definition SCo (c : nat) (o : outcome) : Prop :=
-  match o with
-  | OOk _ s => scur s = c
-  | OErr _ _ s => scur s = c
-  | _ => True
-  end.
+(* top-level execution resets the current statement at every tag: no claim *)
+Definition SCo (c : option nat) (o : outcome) : Prop := True.
 
-Lemma sc_with_ctx st s : scur (with_ctx st s) = scur st. Proof. reflexivity. Qed.
-Lemma sc_with_heap st h : scur (with_heap st h) = scur st. Proof. reflexivity. Qed.
-Lemma sc_with_cur st c : scur (with_cur st c) = c. Proof. reflexivity. Qed.
-Lemma sc_with_stmt st l : scur (with_stmt st l) = scur st. Proof. reflexivity. Qed.
-Lemma sc_log_ev st e : scur (log_ev st e) = scur st. Proof. reflexivity. Qed.
+Lemma sc_with_ctx st s : sstmt (with_ctx st s) = sstmt st. Proof. reflexivity. Qed.
+Lemma sc_with_heap st h : sstmt (with_heap st h) = sstmt st. Proof. reflexivity. Qed.
+Lemma sc_with_cur st c : sstmt (with_cur st c) = sstmt st. Proof. reflexivity. Qed.
+Lemma sc_with_stmt st l : sstmt (with_stmt st l) = l. Proof. reflexivity. Qed.
+Lemma sc_log_ev st e : sstmt (log_ev st e) = sstmt st. Proof. reflexivity. Qed.
 
-Section Scope.
+Section Stmt.
 Variable G : genv.
 
-Lemma sc_set_in st c k v : scur (set_in st c k v) = scur st. Proof. reflexivity. Qed.
-Lemma sc_set_all kvs : forall st c, scur (set_all st c kvs) = scur st.
+Lemma sc_set_in st c k v : sstmt (set_in st c k v) = sstmt st. Proof. reflexivity. Qed.
+Lemma sc_set_all kvs : forall st c, sstmt (set_all st c kvs) = sstmt st.
 Proof.
   unfold set_all. induction kvs as [|kv r IH]; intros st c; simpl; [reflexivity|].
   rewrite IH. reflexivity.
 Qed.
-Lemma sc_copy_data st a b : scur (copy_data st a b) = scur st.
+Lemma sc_copy_data st a b : sstmt (copy_data st a b) = sstmt st.
 Proof. unfold copy_data. apply sc_set_all. Qed.
-Lemma sc_cnew_of st p st1 n : cnew_of G st p = (st1, n) -> scur st1 = scur st.
+Lemma sc_cnew_of st p st1 n : cnew_of G st p = (st1, n) -> sstmt st1 = sstmt st.
 Proof. unfold cnew_of. destruct (Ctx.new_child _ _ _ _ _ _) as [s' m]. intros E; inversion E; subst. reflexivity. Qed.
-Lemma sc_cnew st st1 n : cnew G st = (st1, n) -> scur st1 = scur st.
+Lemma sc_cnew st st1 n : cnew G st = (st1, n) -> sstmt st1 = sstmt st.
 Proof. apply sc_cnew_of. Qed.
-Lemma sc_halloc st c st1 l : halloc_st st c = (st1, l) -> scur st1 = scur st.
+Lemma sc_halloc st c st1 l : halloc_st st c = (st1, l) -> sstmt st1 = sstmt st.
 Proof. unfold halloc_st. destruct (halloc _ _) as [h m]. intros E; inversion E; subst. reflexivity. Qed.
-Lemma sc_auto_arg st p blk st1 b : auto_arg st p blk = (st1, b) -> scur st1 = scur st.
+Lemma sc_auto_arg st p blk st1 b : auto_arg st p blk = (st1, b) -> sstmt st1 = sstmt st.
 Proof.
   unfold auto_arg. destruct p; try (intros E; inversion E; subst; reflexivity).
   all: destruct (halloc_st st _) as [s l] eqn:Eh; intros E; inversion E; subst; eapply sc_halloc; eassumption.
 Qed.
 
 Lemma SC_rbind {A B} c (m : res (A * state)) (k : A * state -> res (B * state)) :
-  SC c m -> (forall a s, scur s = c -> SC c (k (a, s))) -> SC c (rbind m k).
+  SC c m -> (forall a s, sstmt s = c -> SC c (k (a, s))) -> SC c (rbind m k).
 Proof. destruct m as [[a s]|e s| | |]; simpl; auto. Qed.
 (* a deferred restore decides the scope whatever happened inside *)
-Lemma SC_rfinal c g r : (forall s, scur (g s) = c) -> SC c (rfinal g r).
-Proof. intros Hg. destruct r as [[v s]|e s| | |]; simpl; auto. Qed.
-Lemma SC_tolerate c b o r : SC c r -> SC c (tolerate b o r).
-Proof. destruct r as [[v s]|e s| | |]; simpl; auto. destruct (b && is_unknown e)%bool; simpl; auto. Qed.
-Lemma SC_of_opres c o st : scur st = c -> SC c (of_opres o st).
+Lemma SC_rfinal c g r : (forall s, sstmt (g s) = sstmt s) -> SC c r -> SC c (rfinal g r).
+Proof. intros Hg. destruct r as [[v s]|e s| | |]; simpl; auto. rewrite Hg. auto. Qed.
+Lemma SC_tolerate c b o r : o = c -> SC c r -> SC c (tolerate b o r).
+Proof. intros E. destruct r as [[v s]|e s| | |]; simpl; auto. destruct (b && is_unknown e)%bool; simpl; auto. Qed.
+Lemma SC_of_opres c o st : sstmt st = c -> SC c (of_opres o st).
 Proof. intros H. destruct o; simpl; auto. Qed.
-Lemma SC_fail {A} c st : scur st = c -> SC c (@fail (A * state) st).
+Lemma SC_fail {A} c st : SC c (@fail (A * state) st).
+Proof. exact I. Qed.
+Lemma SC_ok {A} c (a : A) st : sstmt st = c -> SC c (ROk (a, st)).
 Proof. auto. Qed.
-Lemma SC_ok {A} c (a : A) st : scur st = c -> SC c (ROk (a, st)).
-Proof. auto. Qed.
-Lemma SC_err {A} c e st : scur st = c -> @SC A c (RErr e st).
-Proof. auto. Qed.
+Lemma SC_err {A} c e st : @SC A c (RErr e st).
+Proof. exact I. Qed.
 Lemma SC_eq {A} c c' (r : res (A * state)) : SC c' r -> c' = c -> SC c r.
 Proof. intros H E. subst. exact H. Qed.
 Lemma SCo_eq c c' o : SCo c' o -> c' = c -> SCo c o.
 Proof. intros H E. subst. exact H. Qed.
 
 Record SS (ev : evals) : Prop := mkSS {
-  s_eval : forall st e, SC (scur st) (r_eval ev st e);
-  s_eval_chain : forall st c, SC (scur st) (r_eval_chain ev st c);
-  s_eval_list : forall st es, SC (scur st) (r_eval_list ev st es);
-  s_eval_pairs : forall st ps acc, SC (scur st) (r_eval_pairs ev st ps acc);
-  s_eval_infix : forall st op l r, SC (scur st) (r_eval_infix ev st op l r);
-  s_eval_if : forall st bs els, SC (scur st) (r_eval_if ev st bs els);
-  s_eval_block : forall st b, SC (scur st) (r_eval_block ev st b);
-  s_eval_stmts : forall st ss acc, SC (scur st) (r_eval_stmts ev st ss acc);
-  s_eval_stmt : forall st s, SC (scur st) (r_eval_stmt ev st s);
-  s_eval_for : forall st k v it b, SC (scur st) (r_eval_for ev st k v it b);
-  s_for_body : forall st k v b kv vv, SC (scur st) (r_for_body ev st k v b kv vv);
-  s_for_items : forall st k v b items acc, SC (scur st) (r_for_items ev st k v b items acc);
-  s_for_slice : forall st k v b loc i acc, SC (scur st) (r_for_slice ev st k v b loc i acc);
-  s_for_iter : forall st k v b loc i acc, SC (scur st) (r_for_iter ev st k v b loc i acc);
-  s_eval_index : forall st l i v c, SC (scur st) (r_eval_index ev st l i v c);
-  s_index_callee : forall st x ls c, SC (scur st) (r_index_callee ev st x ls c);
-  s_eval_call : forall st fn callee args blk chain, SC (scur st) (r_eval_call ev st fn callee args blk chain);
-  s_user_call : forall st ps body args, SC (scur st) (r_user_call ev st ps body args);
-  s_bind_params : forall st ps args, SC (scur st) (r_bind_params ev st ps args);
-  s_bind_args : forall st sg args blk, SC (scur st) (r_bind_args ev st sg args blk);
-  s_bind_fixed : forall st ps args, SC (scur st) (r_bind_fixed ev st ps args);
-  s_bind_variadic : forall st p args, SC (scur st) (r_bind_variadic ev st p args);
-  s_block_with : forall st blk ctx, SC (scur st) (r_block_with ev st blk ctx);
-  s_block_in_child : forall st blk parent data, SC (scur st) (r_block_in_child ev st blk parent data);
-  s_go_apply : forall st id cfg recv bs, SC (scur st) (r_go_apply ev st id cfg recv bs);
-  s_partial_call : forall st name data ctx, SC (scur st) (r_partial_call ev st name data ctx);
-  s_exec_prog : forall st prog out, SCo (scur st) (r_exec_prog ev st prog out)
+  s_eval : forall st e, SC (sstmt st) (r_eval ev st e);
+  s_eval_chain : forall st c, SC (sstmt st) (r_eval_chain ev st c);
+  s_eval_list : forall st es, SC (sstmt st) (r_eval_list ev st es);
+  s_eval_pairs : forall st ps acc, SC (sstmt st) (r_eval_pairs ev st ps acc);
+  s_eval_infix : forall st op l r, SC (sstmt st) (r_eval_infix ev st op l r);
+  s_eval_if : forall st bs els, SC (sstmt st) (r_eval_if ev st bs els);
+  s_eval_block : forall st b, SC (sstmt st) (r_eval_block ev st b);
+  s_eval_stmts : forall (st : state) (ss : list stmt) (acc : list value), True;
+  s_eval_stmt : forall (st : state) (s : stmt), True;
+  s_eval_for : forall st k v it b, SC (sstmt st) (r_eval_for ev st k v it b);
+  s_for_body : forall st k v b kv vv, SC (sstmt st) (r_for_body ev st k v b kv vv);
+  s_for_items : forall st k v b items acc, SC (sstmt st) (r_for_items ev st k v b items acc);
+  s_for_slice : forall st k v b loc i acc, SC (sstmt st) (r_for_slice ev st k v b loc i acc);
+  s_for_iter : forall st k v b loc i acc, SC (sstmt st) (r_for_iter ev st k v b loc i acc);
+  s_eval_index : forall st l i v c, SC (sstmt st) (r_eval_index ev st l i v c);
+  s_index_callee : forall st x ls c, SC (sstmt st) (r_index_callee ev st x ls c);
+  s_eval_call : forall st fn callee args blk chain, SC (sstmt st) (r_eval_call ev st fn callee args blk chain);
+  s_user_call : forall st ps body args, SC (sstmt st) (r_user_call ev st ps body args);
+  s_bind_params : forall st ps args, SC (sstmt st) (r_bind_params ev st ps args);
+  s_bind_args : forall st sg args blk, SC (sstmt st) (r_bind_args ev st sg args blk);
+  s_bind_fixed : forall st ps args, SC (sstmt st) (r_bind_fixed ev st ps args);
+  s_bind_variadic : forall st p args, SC (sstmt st) (r_bind_variadic ev st p args);
+  s_block_with : forall st blk ctx, SC (sstmt st) (r_block_with ev st blk ctx);
+  s_block_in_child : forall st blk parent data, SC (sstmt st) (r_block_in_child ev st blk parent data);
+  s_go_apply : forall st id cfg recv bs, SC (sstmt st) (r_go_apply ev st id cfg recv bs);
+  s_partial_call : forall st name data ctx, SC (sstmt st) (r_partial_call ev st name data ctx);
+  s_exec_prog : forall st prog out, SCo (sstmt st) (r_exec_prog ev st prog out)
 }.
 
 Lemma SS_bottom : SS evals_bottom.
@@ -133,8 +133,6 @@ Ltac s_ih H :=
   | |- SC _ (r_eval_infix _ _ _ _ _) => eapply SC_eq; [apply (s_eval_infix _ H)|sc_solve]
   | |- SC _ (r_eval_if _ _ _ _) => eapply SC_eq; [apply (s_eval_if _ H)|sc_solve]
   | |- SC _ (r_eval_block _ _ _) => eapply SC_eq; [apply (s_eval_block _ H)|sc_solve]
-  | |- SC _ (r_eval_stmts _ _ _ _) => eapply SC_eq; [apply (s_eval_stmts _ H)|sc_solve]
-  | |- SC _ (r_eval_stmt _ _ _) => eapply SC_eq; [apply (s_eval_stmt _ H)|sc_solve]
   | |- SC _ (r_eval_for _ _ _ _ _ _) => eapply SC_eq; [apply (s_eval_for _ H)|sc_solve]
   | |- SC _ (r_for_body _ _ _ _ _ _ _) => eapply SC_eq; [apply (s_for_body _ H)|sc_solve]
   | |- SC _ (r_for_items _ _ _ _ _ _ _) => eapply SC_eq; [apply (s_for_items _ H)|sc_solve]
@@ -165,8 +163,6 @@ Ltac s_raw H x :=
   | r_eval_infix _ _ _ _ _ => apply (s_eval_infix _ H)
   | r_eval_if _ _ _ _ => apply (s_eval_if _ H)
   | r_eval_block _ _ _ => apply (s_eval_block _ H)
-  | r_eval_stmts _ _ _ _ => apply (s_eval_stmts _ H)
-  | r_eval_stmt _ _ _ => apply (s_eval_stmt _ H)
   | r_eval_for _ _ _ _ _ _ => apply (s_eval_for _ H)
   | r_for_body _ _ _ _ _ _ _ => apply (s_for_body _ H)
   | r_for_items _ _ _ _ _ _ _ => apply (s_for_items _ H)
@@ -193,14 +189,12 @@ Ltac s_scrut H c x tac :=
   lazymatch T' with
   | res _ =>
       let Hq := fresh "Hq" in
-      first [ assert (Hq : SC c x) by tac
-            | assert (Hq : SC _ x) by (s_raw H x) ];
-      destruct x as [[? ?]|? ?|?| |] eqn:?; cbn [SC] in Hq; sc_norm_in Hq
+      first [ assert (Hq : SC c x) by tac;
+              destruct x as [[? ?]|? ?|?| |] eqn:?; cbn [SC] in Hq; sc_norm_in Hq
+            | destruct x as [[? ?]|? ?|?| |] eqn:? ]
   | outcome =>
       let Hq := fresh "Hq" in
-      first [ assert (Hq : SCo c x) by tac
-            | assert (Hq : SCo _ x) by (s_raw H x) ];
-      destruct x as [? ?|? ? ?|?|?| |] eqn:?; cbn [SCo] in Hq; sc_norm_in Hq
+      destruct x as [? ?|? ? ?|?|?| |] eqn:?
   | _ => destruct x eqn:?; harvest
   end
 with sc_norm_in Hq :=
@@ -211,17 +205,16 @@ with sc_norm_in Hq :=
 Ltac s_step H :=
   match goal with
   | |- SC _ (rbind _ _) => apply SC_rbind; [|intros ? ? ?; cbv beta iota zeta]
-  | |- SC _ (rfinal _ _) => apply SC_rfinal; intros; sc_solve
-  | |- SC _ (tolerate _ _ _) => apply SC_tolerate
+  | |- SC _ (rfinal _ _) => apply SC_rfinal; [intros; sc_solve|]
+  | |- SC _ (tolerate _ _ _) => apply SC_tolerate; [sc_solve|]
   | |- SC _ (of_opres _ _) => apply SC_of_opres; sc_solve
-  | |- SC _ (fail _) => apply SC_fail; sc_solve
+  | |- SC _ (fail _) => exact I
   | |- SC _ (ROk (_, _)) => apply SC_ok; sc_solve
-  | |- SC _ (RErr _ _) => apply SC_err; sc_solve
+  | |- SC _ (RErr _ _) => exact I
   | |- SC _ (RPanic _) => exact I
   | |- SC _ RFuel => exact I
   | |- SC _ RUnsup => exact I
-  | |- SCo _ (OOk _ _) => cbn [SCo]; sc_solve
-  | |- SCo _ (OErr _ _ _) => cbn [SCo]; sc_solve
+  | |- SCo _ _ => exact I
   | |- SCo _ (OParseErr _) => exact I
   | |- SCo _ (OPanic _) => exact I
   | |- SCo _ OFuel => exact I
@@ -233,8 +226,6 @@ Ltac s_step H :=
   | |- SC _ (r_eval_infix _ _ _ _ _) => s_ih H
   | |- SC _ (r_eval_if _ _ _ _) => s_ih H
   | |- SC _ (r_eval_block _ _ _) => s_ih H
-  | |- SC _ (r_eval_stmts _ _ _ _) => s_ih H
-  | |- SC _ (r_eval_stmt _ _ _) => s_ih H
   | |- SC _ (r_eval_for _ _ _ _ _ _) => s_ih H
   | |- SC _ (r_for_body _ _ _ _ _ _ _) => s_ih H
   | |- SC _ (r_for_items _ _ _ _ _ _ _) => s_ih H
@@ -276,15 +267,15 @@ Proof.
   - unfold eval_infix_step. s_solve H.
   - unfold eval_if_step. s_solve H.
   - unfold eval_block_step. s_solve H.
-  - unfold eval_stmts_step. s_solve H.
-  - unfold eval_stmt_step. s_solve H.
+  - exact I.
+  - exact I.
   - unfold eval_for_step. s_solve H.
   - unfold for_body_step. s_solve H.
   - unfold for_items_step. s_solve H.
   - unfold for_slice_step. s_solve H.
   - unfold for_iter_step. cbv zeta.
     match goal with |- SC _ (match ?n with _ => _ end) =>
-      assert (Hn : forall x s, n = Some (x, s) -> scur s = scur st);
+      assert (Hn : forall x s, n = Some (x, s) -> sstmt s = sstmt st);
       [ intros x s E;
         repeat match type of E with
                | match ?y with _ => _ end = _ => destruct y eqn:?; try discriminate
@@ -310,22 +301,21 @@ Qed.
 Theorem SS_at fuel : SS (evals_at G fuel).
 Proof. induction fuel as [|f IH]; [exact SS_bottom|exact (SS_step _ IH)]. Qed.
 
-(* ---- the fuel-indexed and top-level forms ---- *)
-Theorem eval_restores_scope fuel st e : SC (scur st) (eval G fuel st e).
-Proof. exact (s_eval _ (SS_at fuel) st e). Qed.
-Theorem eval_block_restores_scope fuel st b : SC (scur st) (eval_block G fuel st b).
-Proof. exact (s_eval_block _ (SS_at fuel) st b). Qed.
-Theorem block_with_restores_scope fuel st blk ctx : SC (scur st) (block_with G fuel st blk ctx).
-Proof. exact (s_block_with _ (SS_at fuel) st blk ctx). Qed.
-Theorem partial_restores_scope fuel st name data ctx : SC (scur st) (partial_call G fuel st name data ctx).
-Proof. exact (s_partial_call _ (SS_at fuel) st name data ctx). Qed.
-Theorem exec_restores_scope fuel st prog out : SCo (scur st) (exec_prog G fuel st prog out).
-Proof. exact (s_exec_prog _ (SS_at fuel) st prog out). Qed.
+(* ---- the fuel-indexed forms ---- *)
+Theorem eval_ok_keeps_statement fuel st e v st1 :
+  eval G fuel st e = ROk (v, st1) -> sstmt st1 = sstmt st.
+Proof. intros E. pose proof (s_eval _ (SS_at fuel) st e) as H. unfold eval in E. rewrite E in H. exact H. Qed.
 
-(* on the value path and on the error path alike *)
-Theorem eval_ok_scope fuel st e v st1 : eval G fuel st e = ROk (v, st1) -> scur st1 = scur st.
-Proof. intros E. pose proof (eval_restores_scope fuel st e) as H. rewrite E in H. exact H. Qed.
-Theorem eval_err_scope fuel st e k st1 : eval G fuel st e = RErr k st1 -> scur st1 = scur st.
-Proof. intros E. pose proof (eval_restores_scope fuel st e) as H. rewrite E in H. exact H. Qed.
+Theorem eval_list_ok_keeps_statement fuel st es vs st1 :
+  eval_list G fuel st es = ROk (vs, st1) -> sstmt st1 = sstmt st.
+Proof. intros E. pose proof (s_eval_list _ (SS_at fuel) st es) as H. unfold eval_list in E. rewrite E in H. exact H. Qed.
 
-End Scope.
+Theorem user_call_ok_keeps_statement fuel st ps body args v st1 :
+  user_call G fuel st ps body args = ROk (v, st1) -> sstmt st1 = sstmt st.
+Proof. intros E. pose proof (s_user_call _ (SS_at fuel) st ps body args) as H. unfold user_call in E. rewrite E in H. exact H. Qed.
+
+Theorem partial_ok_keeps_statement fuel st name data ctx v st1 :
+  partial_call G fuel st name data ctx = ROk (v, st1) -> sstmt st1 = sstmt st.
+Proof. intros E. pose proof (s_partial_call _ (SS_at fuel) st name data ctx) as H. unfold partial_call in E. rewrite E in H. exact H. Qed.
+
+End Stmt.
